@@ -29,6 +29,8 @@ CATS_TAKE = [(4, "within"), (2, "exact"), (3, "beyond"), (1, "zero"),
              (1, "neg"), (2, "float"), (2, "inf"), (2, "none"), (1, "ninf")]
 CATS_CUT = [(4, "within"), (2, "exact"), (3, "beyond"), (1, "zero"),
             (1, "neg"), (2, "float")]
+CTORS = {"tuple": tuple, "set": set, "sum": sum,
+         "sorted_desc": lambda it: sorted(it, reverse=True)}
 MAX_POOL = 6
 HANG_SECONDS = 60
 
@@ -125,7 +127,9 @@ class C03(Property):
                              (4, "hub_use"), (2, "next_it"), (2, "for"),
                              (1, "thub_scalar")])
       if op in ("take", "peek"):
-        ops.append([op, W.weighted("cat", CATS_TAKE), W.choose("r", 8)])
+        ops.append([op, W.weighted("cat", CATS_TAKE), W.choose("r", 8),
+                    W.weighted("ctor", [(8, None), (1, "tuple"), (1, "set"),
+                                        (1, "sum"), (1, "sorted_desc")])])
       elif op in ("skip", "limit"):
         ops.append([op, W.weighted("cat", CATS_CUT), W.choose("r", 8)])
       elif op == "append_list":
@@ -187,6 +191,10 @@ class C03(Property):
                                   ["hub_use", 0], ["peek", "zero", 0]]},
       {"roots": [fin(2)], "ops": [["append_scalars", 2], ["take", "beyond",
                                                           3]]},
+      {"roots": [fin(6)], "ops": [["peek", "within", 3, "sorted_desc"],
+                                  ["peek", "within", 2, "set"],
+                                  ["take", "within", 1, "tuple"],
+                                  ["take", "inf", 0]]},
       {"roots": [{"kind": "repeat_n", "len": 5}],
        "ops": [["copy"], ["take", "within", 1], ["peek", "within", 2],
                ["take", "inf", 0]]},
@@ -471,9 +479,17 @@ class _Ctx(object):
        and self.eff_take(n) > rem:
       self.res.counters["probe.take-beyond-end"] += 1
     want, k = self.model_take(h.model, n, True)
-    got = self.call("take", lambda: h.real.take(n) if n is not None
-                    else h.real.take())
-    self.events.append("take(%r) h%d -> %r" % (n, h.hid, want))
+    ctor = op[3] if len(op) > 3 and n is not None else None
+    if ctor:
+      want = (want[0], CTORS[ctor](want[1]))
+      got = self.call("take", lambda: h.real.take(n,
+                                                  constructor=CTORS[ctor]))
+    else:
+      got = self.call("take", lambda: h.real.take(n) if n is not None
+                      else h.real.take())
+    self.events.append("take(%r%s) h%d -> %r" % (n, ", constructor=%s" % ctor
+                                                 if ctor else "", h.hid,
+                                                 want))
     self.expect("take", got, want, "h%d.take(%r)" % (h.hid, n))
     self.note_consumer(h, k)
 
@@ -493,9 +509,17 @@ class _Ctx(object):
        and self.eff_take(n) > rem:
       self.res.counters["probe.peek-beyond-end"] += 1
     want, _ = self.model_take(h.model, n, False)
-    got = self.call("peek", lambda: h.real.peek(n) if n is not None
-                    else h.real.peek())
-    self.events.append("peek(%r) h%d -> %r" % (n, h.hid, want))
+    ctor = op[3] if len(op) > 3 and n is not None else None
+    if ctor:
+      want = (want[0], CTORS[ctor](want[1]))
+      got = self.call("peek", lambda: h.real.peek(n,
+                                                  constructor=CTORS[ctor]))
+    else:
+      got = self.call("peek", lambda: h.real.peek(n) if n is not None
+                      else h.real.peek())
+    self.events.append("peek(%r%s) h%d -> %r" % (n, ", constructor=%s" % ctor
+                                                 if ctor else "", h.hid,
+                                                 want))
     self.expect("peek", got, want, "h%d.peek(%r)" % (h.hid, n))
 
   # in-place transformations (a hub hands out a new Stream instead)
